@@ -5,13 +5,13 @@
 set -u
 PATCH=$(readlink -f "$1"); shift
 CHECKS=${*:-C01 C02 C03 C04 C05 C06 C07 C08 C09 C10 C11 C12 C13 C14 C15 C16 C17 C18 C19 C20}
-WT=/tmp/selftest-wt
+WT=${SELFTEST_WT:-/tmp/selftest-wt}
 ROOT=$(dirname "$(dirname "$(readlink -f "$0")")")
 HEAD=$(git -C /repo rev-parse HEAD)
 [ -d $WT ] || git -C /repo worktree add --detach $WT $HEAD >/dev/null 2>&1
 git -C $WT checkout -q --detach $HEAD && git -C $WT checkout -q -- . && git -C $WT clean -fdq
 git -C $WT apply "$PATCH" || { echo "patch does not apply: $PATCH"; exit 2; }
-export CEDAR_REPO=$WT CEDAR_VERIF_CACHE=/tmp/selftest-cache VERIF_EVIDENCE_DIR=/tmp/selftest-evidence
+export CEDAR_REPO=$WT CEDAR_VERIF_CACHE=${SELFTEST_CACHE:-/tmp/selftest-cache} VERIF_EVIDENCE_DIR=${SELFTEST_EVID:-/tmp/selftest-evidence}
 mkdir -p $VERIF_EVIDENCE_DIR /tmp/selftest-logs
 python3 "$ROOT/lib/factsbuild.py" E >/tmp/selftest-logs/facts.log 2>&1 || { echo "fact extraction failed"; tail -20 /tmp/selftest-logs/facts.log; git -C $WT checkout -q -- .; exit 2; }
 TAG=$(basename "$(dirname "$PATCH")")
